@@ -134,7 +134,16 @@ pub fn plan(prop: &str, tier: Tier) -> Option<Plan> {
             "exploration",
             "proptest-generated histories over ThinArc<H,T> and every fat / protected / raw / unique / arc-swap view of the same allocations (header Tok + 0..8 element Toks; header alignment <, =, > element alignment), including fat Arcs whose recorded length is wrong (true+1, true-1, 0, true+1000, usize::MAX) fed to into_thin, and with_arc_mut callbacks that mutate, replace by a fresh Arc, swap with an existing one, or panic before/after replacing. After every step every slot is read element by element and compared (values, identities, addresses, recorded length, count, heap_ptr) with the model. Non-trivial: a thin and a fat/protected handle to one allocation of length >=2 compared element-wise, or an into_thin with a wrong recorded length, or a with_arc_mut that replaced the Arc.".into(),
             vec!["element/header types are Tok witnesses; ZST elements are refused by the constructors (C06)".into()],
-            thin_jobs("C10", if q { 40 } else { 128 }, if q { 8000 } else { 450_000 }, both),
+            {
+                let mut v = thin_jobs("C10", if q { 40 } else { 128 }, if q { 8000 } else { 450_000 }, both);
+                // the recorded length against what a (possibly misreporting) iterator really delivered
+                for fl in both {
+                    for (e, w) in eng::ctor::fault_engines() {
+                        v.push(jobb(e, w * if q { 1500 } else { 200_000 }, fl));
+                    }
+                }
+                v
+            },
         ),
         "C05" => (
             "exploration",
@@ -246,5 +255,19 @@ pub fn plan(prop: &str, tier: Tier) -> Option<Plan> {
         ),
         _ => return None,
     };
+    // the ThreadSanitizer flavour (real threads, TSan as the oracle) joins the plan when its binary was built
+    // (./check builds it for the thorough tier of the schedule-dependent properties, or with VERIF_TSAN=1)
+    let mut jobs = jobs;
+    let mut rule = rule;
+    let mut assumptions = assumptions;
+    if std::env::var_os("TV_BIN_TSAN").is_some() {
+        let extra = tsn::jobs(prop, tier);
+        if !extra.is_empty() {
+            std::env::set_var("TV_TSAN_JOB_BASE", jobs.len().to_string());
+            jobs.extend(extra);
+            rule.push_str(" | tsan-threads: 2-4 real threads run generated programs (clone/convert/drop/send, uniqueness gates incl. the deprecated writers, make_mut, unwrap) over shared sized, thin and slice allocations in a ThreadSanitizer build with triomphe at opt-level 0; a data-race report (exit 66) or a broken payload invariant is a violation. Non-trivial: an allocation starts shared by >=2 threads, >=2 threads release handles, and (except C02) a thread asks a uniqueness gate.");
+            assumptions.push("ThreadSanitizer stage: real scheduling (not replayable bit-for-bit; replays repeat the case 40 times); skipped when the library uses fences, which TSan does not model".into());
+        }
+    }
     Some(Plan { property: prop.to_string(), level, rule, assumptions, jobs })
 }
